@@ -10,7 +10,7 @@ CHECK = {
            'forced collection / fill-to-threshold on one real collector (fresh collector per execution, torn down at its end); objects live at '
            'harness-chosen arena addresses whose registry home slots collide modulo 5, 11 and 23 (two of them in the last slot: wrap-around); '
            'a state is the concrete registry layout plus the shadow ledger; distinct_nontrivial = states with at least one displaced registry entry; '
-           'ladders take the registry through sizes 53..389 with colliding strides; "temps=K" instances: every destructor allocates K collector-managed temporaries and deletes them before returning, in the state graph, the ownership graphs and the exit programs'),
+           'a second address layout (residues=B) puts two homes in the second-to-last slot and one in the last; rootsleft=1 instances end the program without deleting its root objects (leaked by design) and still require every other object to be finalised exactly once; ladders take the registry through sizes 53..389 with colliding strides; "temps=K" instances: every destructor allocates K collector-managed temporaries and deletes them before returning, in the state graph, the ownership graphs and the exit programs'),
   'bounds': {
     'quick': 'teardown at worker-thread exit and at program exit (atexit) after every program of length <= 5 over 6 operations; ownership graphs (two owning pointers per object, cycles and shared ownership inside a cycle included) on 3 objects x {forced collection, teardown, explicit del of each} x every address order; 4 arena addresses to fixpoint (gcc), 3 under ASan; ladders to 250 objects x 6 strides x 3 delete orders x 3 root patterns',
     'thorough': 'ownership graphs on 3 and 4 objects; 5 arena addresses (gcc; global deadline 14 min, evidence says whether the fixpoint was reached), 4 under ASan to fixpoint; ladders to 300 objects',
@@ -27,6 +27,9 @@ CHECK = {
       G('addr3', 'base', 'naddr=3', 'prop=C06'),
       G('addr3-asan', 'asan', 'naddr=3', 'prop=C06'),
       G('own3', 'base', 'mode=own', 'n=3'), G('own3-asan', 'asan', 'mode=own', 'n=3'), G('exit5', 'base', 'mode=exit', 'depth=5'), G('exit4-asan', 'asan', 'mode=exit', 'depth=4'),
+      # second address layout (cluster starting before the end of the table and wrapping around it); programs that end without deleting their roots
+      G('addr3-B-rootsleft', 'base', 'naddr=3', 'prop=C06', 'residues=B', 'rootsleft=1'), G('addr4-B-d8', 'base', 'naddr=4', 'prop=C06', 'residues=B', 'depth=8'),
+      G('addr4-B-rootsleft-d8', 'base', 'naddr=4', 'prop=C06', 'residues=B', 'rootsleft=1', 'depth=8'), G('addr3-rootsleft-asan', 'asan', 'naddr=3', 'prop=C06', 'rootsleft=1'),
       # destructors that allocate collector-managed temporaries and delete them again (1, 2 or 3 each)
       G('addr3-temps2', 'base', 'naddr=3', 'prop=C06', 'temps=2'), G('addr3-temps1-asan', 'asan', 'naddr=3', 'prop=C06', 'temps=1'),
       G('own3-temps2', 'base', 'mode=own', 'n=3', 'temps=2'), G('own3-temps3-asan', 'asan', 'mode=own', 'n=3', 'temps=3'), G('exit4-temps2', 'base', 'mode=exit', 'depth=4', 'temps=2'),
@@ -36,6 +39,7 @@ CHECK = {
       G('addr4', 'base', 'naddr=4', 'prop=C06'),
       G('addr4-asan', 'asan', 'naddr=4', 'prop=C06'),
       G('own3', 'base', 'mode=own', 'n=3'), G('own4', 'base', 'mode=own', 'n=4'), G('own4-asan', 'asan', 'mode=own', 'n=4'), G('exit6', 'base', 'mode=exit', 'depth=6'), G('exit5-asan', 'asan', 'mode=exit', 'depth=5'),
+      G('addr4-B', 'base', 'naddr=4', 'prop=C06', 'residues=B'), G('addr4-B-rootsleft', 'base', 'naddr=4', 'prop=C06', 'residues=B', 'rootsleft=1'), G('addr5-B-rootsleft', 'base', 'naddr=5', 'prop=C06', 'residues=B', 'rootsleft=1', 'deadline=600'), G('addr4-rootsleft-asan', 'asan', 'naddr=4', 'prop=C06', 'rootsleft=1'),
       G('addr4-temps2', 'base', 'naddr=4', 'prop=C06', 'temps=2'), G('addr4-temps1', 'base', 'naddr=4', 'prop=C06', 'temps=1'), G('addr3-temps3-asan', 'asan', 'naddr=3', 'prop=C06', 'temps=3'),
       G('own4-temps2', 'base', 'mode=own', 'n=4', 'temps=2'), G('own3-temps3-asan', 'asan', 'mode=own', 'n=3', 'temps=3'), G('exit5-temps2', 'base', 'mode=exit', 'depth=5', 'temps=2'), G('exit5-temps1', 'base', 'mode=exit', 'depth=5', 'temps=1'),
     ],
